@@ -337,6 +337,30 @@ Proof.
     + repeat (split; [discriminate|]). exact Eb.
 Qed.
 
+(* ---- history ---- *)
+Section H.
+  Variable x25519 : bytes -> bytes -> option bytes.
+  Variable hkdf : bytes -> bytes -> bytes -> bytes.
+  Variable dec : bytes -> bytes -> bytes -> option bytes.
+  Variable enc : bytes -> bytes -> bytes -> bytes.
+  Variable pk_load : bytes -> bool.
+  Variable sig_ok : bytes -> bytes -> bytes -> bool.
+  Variable sign : bytes -> bytes -> option bytes.
+  Notation run_history := (run_history x25519 hkdf dec enc pk_load sig_ok sign).
+  Notation connect_stored := (connect_stored x25519 hkdf dec enc pk_load sig_ok sign).
+
+  Lemma history_connect k p : forall pre init h f1 pd f3 pd4 post,
+    nth_error (run_history k p init (pre ++ Connect h f1 pd f3 pd4 :: post)) (connects_in pre)
+    = Some (connect_stored k p (creds_after init pre) h f1 pd f3 pd4).
+  Proof.
+    induction pre as [|e pre IH]; intros init h f1 pd f3 pd4 post.
+    - reflexivity.
+    - destruct e as [c|h0 g1 pd0 g3 pd40]; cbn [app Model.run_history creds_after fold_left connects_in filter length].
+      + apply IH.
+      + cbn [nth_error]. apply IH.
+  Qed.
+End H.
+
 (* a decidable predicate checked by the analyser on a list of skeletons holds on every execution *)
 Lemma lift (P : Skeleton.outcome -> st -> bool) (l : list cmd) :
   forallb (fun c => match an 4 c [s_init] with Some r => check P r | None => false end) l = true ->
